@@ -27,6 +27,8 @@ if wave:
 emphasis = ""
 if wave == "e":
     emphasis = ("EMPHASIS for this round: four earlier rounds already delivered numeric-scale triggers (tiny/huge units, large offsets, absolute-epsilon comparisons), special-case shortcuts, builder-call-order bugs, cooperating producer/consumer sites and fit-then-use-on-other-data sequences. Prefer instead: (i) EDGE SHAPES AND COUNTS that the statement's scope explicitly includes (a single row / single column / single class / k equal to n / exactly the minimum admissible size / an empty group after filtering), (ii) the RARELY USED public entry points and accessors named in the property (the second of two solvers, the non-default variant, the decision/score/probability accessor rather than predict, the vector-typed twin of a matrix method, the f32 instantiation), (iii) ERROR AND VALIDATION paths the statement mentions (an input that must be rejected is accepted only in one combination; an input that must be accepted is rejected at one boundary), (iv) ORDER OR TIE handling (which of two equal candidates wins, stability of a sort, first-vs-last maximum) where the statement fixes the answer, (v) state that survives between calls (a cached quantity not refreshed, a buffer reused without clearing, a counter not reset when the same object or the same thread-local is used twice).\n\n")
+if wave == "g":
+    emphasis = ("EMPHASIS for this round: six earlier rounds (listed under AVOID) covered numeric-scale triggers, special-case shortcuts, builder/default/constructor layers, API-trait twins, edge shapes, tie handling and fit-then-use sequences. Prefer instead (1) SHARED HELPERS outside the files most obviously tied to this property but on its call path — `src/math/num.rs`, `src/math/vector.rs`, `src/linalg/stats.rs`, default methods in `src/linalg/mod.rs`, `src/algorithm/sort/*`, `src/algorithm/neighbour/*`, `src/api.rs`, `src/error/*` — changed in a way that looks like a clean-up or micro-optimisation and leaves every other user of the helper (and its unit tests) unaffected while this property fails on a specific input; (2) BOUNDARIES OF THE STATEMENT'S DOMAIN: the smallest / largest admissible size or parameter, the exact point where the statement switches from 'must succeed' to 'must be rejected', inputs that are admissible but sit next to an inadmissible one; (3) STATE REUSE: a fitted object used twice, predicted on an empty or single-row matrix, cloned, or compared with itself.\n\n")
 if wave == "f":
     emphasis = ("EMPHASIS for this round: five earlier rounds covered numeric-scale triggers, special-case shortcuts, builder-call-order bugs, cooperating producer/consumer sites, fit-then-use sequences, edge shapes, validation paths, tie handling and the api-trait impls. Prefer instead THIN PUBLIC DELEGATIONS AND CONVENIENCE LAYERS that sit next to the core implementation and are easy to break without touching it: factory functions and convenience constructors (`Distances::…()`, `Kernels::…()`, `…Parameters::default()` values and `with_*` defaults, `from_*`/`new_*` twins), free-function wrappers versus the struct API (e.g. `metrics::accuracy(..)` vs `Accuracy{}.get_score(..)`, `ClassificationMetrics::…`), the vector-typed twin of a matrix method and default trait methods overridden by a type, accessors/getters that return stored state (coefficients(), intercept(), components(), classes, n-something), `Display`/`Debug`-independent conversions between the crate's own types (matrix <-> row vector <-> Vec), and documented default parameter values that the statement's scope relies on. The change must still make the PROPERTY false for some in-scope use through such a layer while the core path stays correct.\n\n")
 if wave == "d":
